@@ -1,7 +1,7 @@
 SPECIFICATION GSpec
 CONSTANTS NP = 2
           NQ = 2
-          NR = 2
+          NR = 1
           NQUERY = 8
 CHECK_DEADLOCK FALSE
 INVARIANT Emit
